@@ -23,11 +23,11 @@ Proof. intros. apply search_never_stopped. reflexivity. Qed.
 (* in the model of the UCI main loop: whatever state the command history left (position, table, game history), `ucinewgame`
    followed by an accepted `position` command puts the engine into exactly the state a freshly started engine is in after that
    `position` command -- so everything it does afterwards (searches included: they are functions of that state) is identical *)
-Theorem C18_ucinewgame_restores_fresh : forall extra u P input input' g rep,
+Theorem C18_ucinewgame_restores_fresh : forall extra dl u P input input' g rep,
   trim P <> ""%string -> lower_str (first_token (trim P)) = "position"%string -> rest_tokens (trim P) <> [] ->
   parse_position (skip 9 (trim P)) = FOk (g, rep) ->
-  let '(u1, _, _, _, _) := uci_step extra u "ucinewgame" input in
-  uci_step extra u1 P input' = uci_step extra init_ustate P input'.
+  let '(u1, _, _, _, _) := uci_step extra dl u "ucinewgame" input in
+  uci_step extra dl u1 P input' = uci_step extra dl init_ustate P input'.
 Proof. exact ucinewgame_then_position_is_fresh. Qed.
 
 (* the repetition table is cleared by resetting its index, not its contents: nothing a search prints, returns or leaves behind depends on what
@@ -47,10 +47,10 @@ Proof. intros. apply search_junk_independent; assumption. Qed.
 
 (* hence the main-loop model's choice of zeros above the history is immaterial: a search started by `go` behaves as the model says whatever the
    table holds there (junk of the right length in place of the zeros) *)
-Theorem C18_session_search_is_independent_of_stale_entries : forall extra u depth max_time input junk,
+Theorem C18_session_search_is_independent_of_stale_entries : forall extra dl u depth max_time input junk,
   List.length junk = (N.to_nat REP_CAPACITY - List.length (u_rep u))%nat ->
-  let stopk : option nat := if (max_time =? 0)%Z then Some O else stop_poll input in
-  match session_search extra u depth max_time input,
+  let stopk : option nat := stop_index dl max_time input in
+  match session_search extra dl u depth max_time input,
         chess_search (c_pollp extra) (fun k => match stopk with Some s => Nat.leb s k | None => false end) false
                      (u_game u) depth (u_tt u) (u_rep u ++ junk) (List.length (u_rep u)) with
   | SDone o1 e1 s1, SDone o2 e2 s2 => o1 = o2 /\ s1 = s2 /\ tbl e1 = tbl e2
@@ -58,7 +58,7 @@ Theorem C18_session_search_is_independent_of_stale_entries : forall extra u dept
   | _, _ => False
   end.
 Proof.
-  intros extra u depth max_time input junk L stopk. unfold session_search. fold stopk.
+  intros extra dl u depth max_time input junk L stopk. unfold session_search. fold stopk.
   pose proof (C18_search_ignores_what_earlier_games_left_in_the_history_table (c_pollp extra)
     (fun k => match stopk with Some s => Nat.leb s k | None => false end) false (u_game u) depth (u_tt u)
     (u_rep u ++ repeat 0%N (N.to_nat REP_CAPACITY - List.length (u_rep u))) (u_rep u ++ junk) (List.length (u_rep u))) as H.
